@@ -125,6 +125,9 @@ type poolCall struct {
 	fn   func() string
 }
 
+// absoluteFailure: a call kind that checks something about its own results says so in its result
+func absoluteFailure(got string) bool { return strings.Contains(got, "RESULT-MUTATED") }
+
 func guardCall(fn func() string) (out string) {
 	defer func() {
 		if r := recover(); r != nil {
@@ -224,7 +227,12 @@ var poolCalls = []poolCall{
 		a := redact.Sprint(redact.RedactableBytes(rb), "tail-one")
 		acopy := string(append([]byte(nil), a...))
 		b := redact.Sprint(redact.RedactableBytes(rb), "TAIL-TWO-LONGER")
-		return fmt.Sprintf("%s|%s|%v|%d", a, b, string(a) == acopy, len(rb))
+		if string(a) != acopy {
+			// absolute: the expected values come from a fresh process of the same build, so a defect that shows in
+			// every process must be named by the call itself
+			return fmt.Sprintf("RESULT-MUTATED: the string returned by the first call changed from %q to %q when the second call ran", acopy, a)
+		}
+		return fmt.Sprintf("%s|%s|%d", a, b, len(rb))
 	}},
 	{"markers", func() string { return string(redact.Sprintf("%s %v", "a‹b›\n", []byte("x›"))) }},
 }
@@ -349,7 +357,7 @@ func runHistory(rep *lib.Report, expected map[string]string, hist []string) {
 	for _, c := range poolCalls {
 		got := guardCall(c.fn)
 		rep.AddEval(1)
-		if got != expected[c.name] {
+		if got != expected[c.name] || absoluteFailure(got) {
 			rep.Violate("pool:history:"+c.name, fmt.Sprintf("after %v the call %s returns %q, a fresh process %q", hist, c.name, digest(got), digest(expected[c.name])),
 				poolCase{"pool-history", hist, c.name})
 		}
@@ -403,7 +411,7 @@ func poolHistory(args []string) {
 			guardCall(a.fn)
 			got := guardCall(b.fn)
 			rep.AddEval(1)
-			if got != expected[b.name] {
+			if got != expected[b.name] || absoluteFailure(got) {
 				rep.Violate("pool:history:"+b.name, fmt.Sprintf("right after %s the call %s returns %q, a fresh process %q", a.name, b.name, digest(got), digest(expected[b.name])),
 					poolCase{"pool-history", []string{a.name}, b.name})
 			}
@@ -483,7 +491,7 @@ func poolStress(args []string) {
 				c := poolCalls[r.Intn(len(poolCalls))]
 				got := guardCall(c.fn)
 				rep.AddEval(1)
-				if got != expected[c.name] {
+				if got != expected[c.name] || absoluteFailure(got) {
 					rep.Violate("pool:stress:"+c.name, fmt.Sprintf("goroutine %d: %s returned %q, a fresh process %q (own recent calls %v)", i, c.name, digest(got), digest(expected[c.name]), hist),
 						poolCase{"pool-history", append([]string(nil), hist...), c.name})
 				}
